@@ -99,11 +99,12 @@ Record sys := {
   y_lost : list osend;            (* frames of a handleMessage call that returned early because the ack or the
                                      first ka could not be queued (the write loop had exited): never sent *)
   y_gcalls : list (list sframe);  (* per subscription goroutine: frames it has handed to sendMessage *)
+  y_calls : list osend;           (* all frames handed to sendMessage, by whomever, in the order of the calls *)
   y_hist : list label             (* labels committed so far *)
 }.
 
 Definition init_sys : sys :=
-  {| y_s := init_st; y_c := init_cfg; y_rprog := []; y_rcalls := []; y_lost := []; y_gcalls := []; y_hist := [] |}.
+  {| y_s := init_st; y_c := init_cfg; y_rprog := []; y_rcalls := []; y_lost := []; y_gcalls := []; y_calls := []; y_hist := [] |}.
 
 Inductive ylabel :=
 | YFrame (f : cframe)       (* the read loop takes a client frame *)
@@ -114,16 +115,19 @@ Inductive ylabel :=
 
 Definition commit (p : proto) (l : label) (y : sys) (c : cfg) : sys :=
   {| y_s := fst (step false false false p (y_s y) l); y_c := c; y_rprog := y_rprog y; y_rcalls := y_rcalls y;
-     y_lost := y_lost y; y_gcalls := y_gcalls y; y_hist := y_hist y ++ [l] |}.
+     y_lost := y_lost y; y_gcalls := y_gcalls y; y_calls := y_calls y; y_hist := y_hist y ++ [l] |}.
 Definition with_cfg (c : cfg) (y : sys) : sys :=
   {| y_s := y_s y; y_c := c; y_rprog := y_rprog y; y_rcalls := y_rcalls y; y_lost := y_lost y; y_gcalls := y_gcalls y;
-     y_hist := y_hist y |}.
+     y_calls := y_calls y; y_hist := y_hist y |}.
 Definition with_reader (prog calls lost : list osend) (y : sys) : sys :=
   {| y_s := y_s y; y_c := y_c y; y_rprog := prog; y_rcalls := calls; y_lost := lost; y_gcalls := y_gcalls y;
-     y_hist := y_hist y |}.
+     y_calls := y_calls y; y_hist := y_hist y |}.
+Definition logged (x : osend) (y : sys) : sys :=
+  {| y_s := y_s y; y_c := y_c y; y_rprog := y_rprog y; y_rcalls := y_rcalls y; y_lost := y_lost y; y_gcalls := y_gcalls y;
+     y_calls := y_calls y ++ [x]; y_hist := y_hist y |}.
 Definition with_gcalls (g : list (list sframe)) (y : sys) : sys :=
   {| y_s := y_s y; y_c := y_c y; y_rprog := y_rprog y; y_rcalls := y_rcalls y; y_lost := y_lost y; y_gcalls := g;
-     y_hist := y_hist y |}.
+     y_calls := y_calls y; y_hist := y_hist y |}.
 
 (** the ending stage 1 is told when HandleClose runs: who ended the connection *)
 Definition end_of (c : cfg) : WsTypes.ending :=
@@ -151,7 +155,8 @@ Section Sys.
         match arun cap true c (EFrame (frame_prog is sp rs bc) :: frame_head is sp) with
         | Some c' =>
             Some {| y_s := s'; y_c := c'; y_rprog := rs; y_rcalls := y_rcalls y; y_lost := y_lost y;
-                    y_gcalls := y_gcalls y ++ (if sp then [[]] else []); y_hist := y_hist y ++ [LFrame f] |}
+                    y_gcalls := y_gcalls y ++ (if sp then [[]] else []); y_calls := y_calls y;
+                    y_hist := y_hist y ++ [LFrame f] |}
         | None => None
         end
     | YEmit i =>
@@ -172,16 +177,16 @@ Section Sys.
             match a with
             | IRSendOk =>
                 match y_rprog y with
-                | x :: r => Some (with_cfg c' (with_reader r (y_rcalls y ++ [x]) (y_lost y) y))
+                | x :: r => Some (logged x (with_cfg c' (with_reader r (y_rcalls y ++ [x]) (y_lost y) y)))
                 | [] => None
                 end
             | IRSendFail =>
                 match y_rprog y with
                 | x :: r =>
-                    Some (with_cfg c' (match send_kind x with
+                    Some (logged x (with_cfg c' (match send_kind x with
                                        | RSendOrClose => with_reader [] (y_rcalls y ++ [x]) (r ++ y_lost y) y
                                        | _ => with_reader r (y_rcalls y ++ [x]) (y_lost y) y
-                                       end))
+                                       end)))
                 | [] => None
                 end
             | IRStop | IRSpawn => None      (* done when the frame was taken *)
@@ -189,13 +194,15 @@ Section Sys.
                 match op_of i y with Some x => Some (commit p (LSrcEnd (s_op x)) y c') | None => None end
             | IGDataOk i | IGDataFail i =>
                 match op_of i y with
-                | Some x => Some (with_cfg c' (with_gcalls (upd i (fun cl => cl ++ [SData (s_id x) (CEv (s_op x) (s_events x))])
-                                                                (y_gcalls y)) y))
+                | Some x => Some (logged (SData (s_id x) (CEv (s_op x) (s_events x)), Some (s_op x))
+                                         (with_cfg c' (with_gcalls (upd i (fun cl => cl ++ [SData (s_id x) (CEv (s_op x) (s_events x))])
+                                                                   (y_gcalls y)) y)))
                 | None => None
                 end
             | IGCompleteOk i | IGCompleteFail i =>
                 match op_of i y with
-                | Some x => Some (with_cfg c' (with_gcalls (upd i (fun cl => cl ++ [SComplete (s_id x)]) (y_gcalls y)) y))
+                | Some x => Some (logged (SComplete (s_id x), Some (s_op x))
+                                         (with_cfg c' (with_gcalls (upd i (fun cl => cl ++ [SComplete (s_id x)]) (y_gcalls y)) y)))
                 | None => None
                 end
             | IWFinish | IAFinish =>
